@@ -25,7 +25,8 @@ func MergeFilters(node Node) (Node, bool) {
 						Type:           octosql.TypeSum(node.Filter.Predicate.Type, node.Filter.Source.Filter.Predicate.Type),
 						ExpressionType: ExpressionTypeAnd,
 						And: &And{
-							Arguments: append(node.Filter.Predicate.SplitByAnd(), node.Filter.Source.Filter.Predicate.SplitByAnd()...),
+							// The lower filter's conjuncts go first, so they are still evaluated first and can guard the upper ones.
+							Arguments: append(node.Filter.Source.Filter.Predicate.SplitByAnd(), node.Filter.Predicate.SplitByAnd()...),
 						},
 					},
 					Source: node.Filter.Source.Filter.Source,
